@@ -167,7 +167,7 @@ fn s_maps(t: &mut Tape, ctx: &mut Ctx) -> Result<(), Failure> {
 }
 
 pub fn streams() -> Vec<Stream> {
-    vec![Stream { name: "maps", kind: Kind::Tape { cases: |t: Tier| t.pick(60_000, 1_200_000), max_len: 400, f: s_maps }, isolate: false }]
+    vec![Stream { name: "maps", kind: Kind::Tape { cases: |t: Tier| t.pick(60_000, 600_000), max_len: 400, f: s_maps }, isolate: false }]
 }
 
 pub fn def() -> PropertyDef {
